@@ -71,6 +71,9 @@ def cases(seed, tier):
             files.append([u.path, u.text])
         g = W.G(rng)
         files.append(["src/unusual/Odd%d.java" % i, g.unit()])
+        if rng.random() < 0.4:
+            files.append(["src/A0Blank.java", ""])                                   # zero bytes: a valid unit that declares nothing
+            files.append(["src/pkgdoc/package-info.java", "/** docs */\npackage pkgdoc;\n"])
         files.sort()
         out.append({"name": "project-%d" % i, "tags": ["project"], "input": [files, str(len(project))]})
     fx = fixture_files()
